@@ -506,6 +506,9 @@ def gen_plan(seed: int, cls: str) -> dict:
     if ro.random() < 0.5:
         extra, ninst = _serialise_history_scenario(ro, sym, roots, ninst)
         ops.extend(extra)
+    if ro.random() < 0.35:
+        pos = ro.randrange(len(ops) + 1)
+        ops[pos:pos] = _literal_temporaries_scenario(ro, sym, knobs, pick_custom)
     if roots and ro.random() < 0.3:
         ops.extend(_equal_values_scenario(ro, sym, roots, pick_custom))
     if ro.random() < 0.7:
@@ -552,6 +555,33 @@ def _equal_values_scenario(ro, sym, roots, pick_custom):
             out.append({'op': 'convert', 'root': r, 'data': tg.enc(data), 'custom': custom})
         except HarnessError:
             pass
+    return out
+
+
+def _literal_temporaries_scenario(ro, sym, knobs, pick_custom):
+    """
+    The everyday `from_data(v, (int, list[int]))` pattern, several times in a row with type literals of one shape
+    whose members are *temporaries* (fresh generic aliases that die with the literal): a memo that keys a literal by
+    anything derived from its members must survive the members' ids being re-used by the next literal's members.
+    """
+    heads = [['s', 'int'], ['s', 'str'], ['s', 'float']]
+    temps = [['list', ['s', 'int']], ['set', ['s', 'int']], ['dict', ['s', 'str'], ['s', 'int']], ['vtuple', ['s', 'str']],
+             ['tuple', ['s', 'int'], ['s', 'int']], ['list', ['s', 'str']], ['frozenset', ['s', 'int']], ['tlist', ['s', 'float']]]
+    head = ro.choice(heads)
+    kind = ro.choice(['tl', 'tl', 'dl', 'nested'])
+    custom = ro.choice([None, None, pick_custom()])
+    out = []
+    for tmp in ro.sample(temps, ro.choice([2, 3, 4])):
+        if kind == 'tl':
+            ast = ['tl', head, tmp]
+        elif kind == 'dl':
+            ast = ['dl', [['a', head], ['b', tmp]]]
+        else:
+            ast = ['tl', head, ['tl', tmp, head]]
+        data = tg.sample_value(ast, sym, ro, valid_p=1.0)
+        out.append({'op': 'inline', 't': ast, 'data': tg.enc(data), 'custom': custom})
+        if ro.random() < 0.3:
+            out.append({'op': ro.choice(['gc', 'typing_cleanup'])})
     return out
 
 
